@@ -20,6 +20,12 @@ def mutation_values(orig, width, pos, blen):
     c = {0, 1, 2, 3, 4, 5, 7, 8, m, m - 1, m - 3, m - 7, m >> 1, (m >> 1) + 1, orig + 1, orig - 1, orig + 2, orig - 2,
          orig + 4, orig - 4, orig + 8, orig ^ 0x80, blen - pos, blen - pos - 1, blen - pos + 1, blen - pos - 4, blen - pos - 3,
          blen - pos + 4, blen, blen - 4, (blen - pos) | 0x80000000, 0x7000, 0x10000, m - pos, m - pos + 1, m - pos - 3, m - 4 + 1}
+    if width == 4:
+        # element counts whose product with a plausible element size wraps around 2^32 to something small
+        for es in (2, 3, 4, 6, 8, 12, 16, 20, 24, 32, 40, 48, 56, 64, 72, 96):
+            for tgt in (0, 8, 16):
+                n = ((1 << 32) + tgt + es - 1) // es
+                c.add(n); c.add(n + 1)
     return sorted(v & m for v in c if (v & m) != orig)
 
 
@@ -129,6 +135,34 @@ def known_limits(ctx, fl):
                        'schema': '[[FTable 1 @0];[FScalar 4 4 @0]] RTable 0 Plain addr 0'})
 
 
+def nested_nesting(ctx, fl):
+    """the nesting budget is shared across nested buffers: chains of nested_flatbuffer roots around the limit"""
+    S = {'structs': {}, 'struct_order': [], 'unions': [], 'root': 'N',
+         'tables': [{'name': 'N', 'fields': [{'name': 'n', 'kind': 'nested_table', 'type': 'N', 'required': False},
+                                             {'name': 'x', 'kind': 'scalar', 'type': 'int', 'required': False}]}]}
+    res, err = build_schema_harness(ctx, S, 'nchain', fl)
+    if res is None: raise lib.CheckError('nested chain schema rejected: ' + err)
+    exe, dc = res
+    rng = ctx.rng
+    lines_i, lines_m, depths = [], ['schema nchain %s' % dc['desc']], []
+    for d in (1, 2, 40, 90, 97, 98, 99, 100, 101, 102, 150, 400):
+        buf = fbenc.Enc(S).finish_table_root('N', {'x': b'\x01\0\0\0'}, rng)
+        for k in range(d - 1):
+            buf = fbenc.Enc(S).finish_table_root('N', {'n': buf}, rng)
+        lines_i.append('vw N p 0 ' + buf.hex()); lines_m.append('verify nchain T/0 p 0 ' + buf.hex()); depths.append(d)
+    out = lib.run_harness_resilient(lib.Harness(exe), lines_i, timeout=300)
+    mres = ctx.run_model('verifier', lines_m)[1:]
+    for li, o, m, d in zip(lines_i, out, mres, depths):
+        ctx.count(li, klass='nested_chain')
+        rep = {'schema_fbs': c01gen.render_fbs(S), 'nested_buffers_on_chain': d, 'impl': o[:200], 'model_verify': m, 'harness_line': li[:200] + '...'}
+        if o.startswith('V 0') and d > 100:
+            ctx.violation('nesting-limit-bypass:nested', 'verifier accepted %d nested buffers inside one another (documented nesting limit 100 includes nested buffers)' % d, rep)
+        elif 'CRASH' in o or o.startswith('V ?'):
+            ctx.violation('nested-chain-crash', 'crash on a chain of nested buffers: ' + o[:200], rep)
+        elif (o.split()[1] if len(o.split()) > 1 else '?') != ('0' if m == 'OK' else m.split()[-1]):
+            ctx.violation('corr:verify:nested-chain', 'verifier model and implementation disagree on a chain of %d nested buffers: impl %s model %s' % (d, o[:20], m), rep, kind='model-impl-disagreement')
+
+
 def roots_of(S):
     r = []
     for i, t in enumerate(S['tables']): r.append((t['name'], 'T/%d' % i))
@@ -160,6 +194,7 @@ def run(ctx):
         schemas.append(('rn%d' % i, c01gen.gen_schema(rng, nstructs=rng.randint(0, 3), ntables=rng.randint(1, 4), nunions=rng.randint(0, 2))))
 
     deep_nesting(ctx, fl)
+    nested_nesting(ctx, fl)
     known_limits(ctx, fl)
     desc_mismatch = []
     for name, S in schemas:
